@@ -9,6 +9,15 @@ def _close(a, b):
     return abs(a - b) <= 1e-9 * max(1.0, abs(a), abs(b))
 
 
+def _strip(calls, rec):
+    """agents deleted or created *during* a step may or may not handle/act in that very step:
+    the property speaks of live agents, so their entries are not compared"""
+    skip = set(rec.get("gone", ())) | set(rec.get("born", ()))
+    if not skip:
+        return list(calls)
+    return [c for c in calls if not (c[0] in "ha" and c[1:].isdigit() and int(c[1:]) in skip)]
+
+
 def cmp_queries(exp, got, types):
     """returns list of (clause, expected, observed)"""
     bad = []
@@ -53,7 +62,15 @@ def cmp_stats(exp, got, types, where):
     return bad
 
 
-def cmp_handled(exp, got):
+def cmp_handled(exp, got, gone=()):
+    gone = set(gone)
+    if gone:
+        exp = [h for h in exp if h["by"] not in gone]
+        got = [g for g in got if g[0] not in gone]
+    return _cmp_handled(exp, got)
+
+
+def _cmp_handled(exp, got):
     """exp: list of {eid,by,at,seq} (spec order); got: list of (by,eid) in handling order.
     Required: same multiset of (by,eid); per agent, events with the same send step keep send order."""
     bad = []
@@ -72,9 +89,10 @@ def cmp_handled(exp, got):
 
 
 class Replayer:
-    def __init__(self, types, dt100, default_v):
+    def __init__(self, types, dt100, default_v, spawn=None, max_ids=10 ** 9):
         self.types, self.dt100, self.default_v = sorted(types), dt100, default_v
-        self.m = A.build(self.types, dt100)
+        self.m = A.build(self.types, dt100, spawn=spawn, default_v=default_v)
+        self.m._max_ids = max_ids
         self.pending = {}
 
     def step(self, h, parts):
@@ -91,7 +109,7 @@ class Replayer:
                 else:
                     m.delete_agents(ids)
             elif op == "Configure":
-                m.configure_agents([{"name": c[0], "count": c[1], "properties": A.prop_v(self.default_v)} for c in h["cfg"]])
+                m.configure_agents([{"name": c[0], "count": c[1], "properties": A.prop_v(c[2])} for c in h["cfg"]])
             elif op == "Reset":
                 m.reset()
             elif op == "SetState":
@@ -100,14 +118,14 @@ class Replayer:
                 m.agent(h["id"]).v = h["v"] / 2.0
             elif op == "Send":
                 m.enqueue_event(m._make_event(h, None))
-            elif op == "Plan":
+            elif op in ("Plan", "PlanDel", "PlanNew", "PlanSet"):
                 m._plan.append(h)
             elif op == "RunStep":
                 m._calls, m._handled, m._times = [], [], []
                 m.run_step(h["k"])
             elif op == "Run":
                 m._calls, m._handled, m._times, m._collect_times = [], [], [], []
-                m.run_specs(h["start"], h["stop"], self.dt100 / 100.0)
+                m.run_specs(h["start"], h["stop"], h["dt100"] / 100.0)
                 m.run(collect_data=h["collect"])
             else:
                 return [("unknown op", op, None)]
@@ -118,21 +136,33 @@ class Replayer:
             bad += cmp_queries(h["q"], A.queries(m, self.types), self.types)
         if op == "RunStep":
             if "handled" in parts:
-                bad += cmp_handled(h["handled"], m._handled)
+                bad += cmp_handled(h["handled"], m._handled, h.get("gone", ()))
             if "calls" in parts:
-                if m._calls != h["calls"]:
-                    bad.append(("callback order in step %d" % h["k"], h["calls"], m._calls))
+                e_c, g_c = _strip(h["calls"], h), _strip(m._calls, h)
+                if e_c != g_c:
+                    bad.append(("callback order in step %d" % h["k"], e_c, g_c))
                 if len(m._times) != 1 or not math.isclose(m._times[0], h["t100"] / 100.0, abs_tol=1e-9):
                     bad.append(("time of step %d" % h["k"], h["t100"] / 100.0, m._times))
             if "stats" in parts:
                 bad += cmp_stats(h["stats"], A.stats_at(m, h["t100"] / 100.0, self.types), self.types, "t=%s" % (h["t100"] / 100.0))
         if op == "Run":
             if "handled" in parts:
-                bad += cmp_handled(h["handled"], m._handled)
+                bad += cmp_handled(h["handled"], m._handled, [g for r in h["rounds"] for g in r.get("gone", ())])
             if "calls" in parts:
-                exp_calls = [c for r in h["rounds"] for c in r["calls"]]
-                if m._calls != exp_calls:
-                    bad.append(("callback order of run", exp_calls[:60], m._calls[:60]))
+                exp_calls = [c for r in h["rounds"] for c in _strip(r["calls"], r)]
+                got_calls, blocks, cur = [], [], []
+                for c in m._calls:          # split the observed log into per-step blocks
+                    if c == "begin" and cur:
+                        blocks.append(cur); cur = []
+                    cur.append(c)
+                if cur:
+                    blocks.append(cur)
+                if len(blocks) == len(h["rounds"]):
+                    got_calls = [c for b, r in zip(blocks, h["rounds"]) for c in _strip(b, r)]
+                else:
+                    got_calls = m._calls
+                if got_calls != exp_calls:
+                    bad.append(("callback order of run", exp_calls[:80], got_calls[:80]))
                 exp_t = [r["t100"] / 100.0 for r in h["rounds"]]
                 if len(m._times) != len(exp_t) or any(not math.isclose(a, b, abs_tol=1e-9) for a, b in zip(m._times, exp_t)):
                     bad.append(("times of run", exp_t, m._times))
@@ -146,9 +176,9 @@ class Replayer:
         return bad
 
 
-def replay(hist, types, dt100, default_v, parts):
+def replay(hist, types, dt100, default_v, parts, spawn=None, max_ids=None):
     """returns None if the whole history conforms, else dict describing the first mismatch"""
-    r = Replayer(types, dt100, default_v)
+    r = Replayer(types, dt100, default_v, spawn, max_ids or 10 ** 9)
     for i, h in enumerate(hist):
         bad = r.step(h, parts)
         if bad:
